@@ -1,6 +1,7 @@
 import PMV.Driver.Util
 import PMV.AstSexp
 import PMV.Model.Exports
+import PMV.Model.InPlace
 namespace PMV.Driver.Exports
 open PMV PMV.Driver
 
@@ -14,3 +15,21 @@ def findAllCmd (args : List Sexp) : Option String := do
   | _ => none
 
 end PMV.Driver.Exports
+
+namespace PMV.Driver.InPlace
+open PMV PMV.Driver
+
+/-- `inplace.fn <isLambda> <inClass> (<decorator>...) <arguments>` → one `0`/`1` per parameter, in the order
+    `posonlyargs, args, vararg, kwonlyargs, kwarg` -/
+def fnCmd (args : List Sexp) : Option String := do
+  match args with
+  | [l, c, ds, a] =>
+    let l ← bool? l
+    let c ← bool? c
+    let ds ← AstSexp.listOf AstSexp.expr? ds
+    let a ← AstSexp.arguments? a
+    let (f, ss) := PMV.InPlace.ofArguments l c ds a
+    pure (String.ofList (ss.map fun s => if PMV.InPlace.argRenameInPlace f s then '1' else '0'))
+  | _ => none
+
+end PMV.Driver.InPlace
